@@ -470,9 +470,9 @@ Definition kcase := (str * str * str * str * str * str * str)%%type.
 Definition kcases : list kcase := %s.
 Definition k_corr (c : kcase) := let '(k, h, n, r, s, uo, ur) := c in
   str_eqb (lk_string k) s && str_eqb (rpm_url true h n r k) uo && str_eqb (rpm_url false h n r k) ur.
-(* monitor: neither the printed key nor the logged URL contains a (non-empty) key *)
+(* monitor: neither the printed key nor the logged URL contains a (non-empty) key, literally or query-escaped *)
 Definition k_mon (c : kcase) := let '(k, h, n, r, s, uo, ur) := c in
-  match k with [] => true | _ => negb (contains k s) && negb (contains k uo) end.
+  match k with [] => true | _ => negb (contains k s) && negb (contains k uo) && negb (contains (qescape k) uo) end.
 Definition k_corr_bad := Eval vm_compute in bad_idx k_corr kcases 0.
 Definition k_prop_bad := Eval vm_compute in bad_idx k_mon kcases 0.
 Definition quote_simple (s : str) : str := [34] ++ s ++ [34].
@@ -563,8 +563,12 @@ Print k_corr_bad. Print k_prop_bad. Print e_corr_bad. Print e_prop_bad.
             chk.count_case({k: sc[k] for k in ("server", "status", "body", "cmd", "proxy", "proxy_mode", "via", "key", "host", "token")},
                            nontrivial=bool(errtxt) or sc["via"] == "connect")
             found = []
-            if sc["key"] and sc["key"] in text:
-                sig, line = leak_sig("key", text, sc["key"])
+            import urllib.parse as _up
+            forms = [sc["key"]] + ([f for f in {_up.quote_plus(sc["key"]), _up.quote(sc["key"], safe="")} if f != sc["key"]]
+                                   if sc["key"] else [])       # the key as it is, or as a query / path escape of it
+            hit = next((f for f in forms if f and f in text), None)
+            if hit:
+                sig, line = leak_sig("key", text, hit)
                 if len(sc["key"]) <= 6:
                     sig = "c14-short-license-key"
                 found.append((sig, line, "license key"))
@@ -649,7 +653,7 @@ Print k_corr_bad. Print k_prop_bad. Print e_corr_bad. Print e_prop_bad.
     chk.cov["disagreements"] = {k: len(v) for k, v in res.items()} if res else {}
     chk.cov["failures_by_signature"] = dict(reported)
 
-    if broken and not chk.violations and not chk.known_hits:
+    if broken and not chk.violations:
         chk.fail("broken.txt", "\n\n".join(broken), no_input=True)
     elif broken:
         chk.notes.append("also: " + " | ".join(b[:300] for b in broken))
